@@ -29,12 +29,12 @@ REQUIRED = {
             "timing-checked": 2000, "overrun-catchup": 30, "mode-string-checked": 2000, "teleop-in-auto-iteration": 100,
             "inherited-robot-class": 50},
     "C06": {"transition:teleop->auto": 20, "transition:auto->teleop": 20, "transition:teleop->disabled": 30,
-            "transition:disabled->teleop": 30, "transition:auto->test": 10, "setup-checked": 300, "end:teleop": 10, "end:auto": 10,
+            "transition:disabled->teleop": 30, "transition:auto->test": 10, "setup-checked": 300, "lifecycle-fault-swallowed": 30, "end:teleop": 10, "end:auto": 10,
             "end:disabled": 10, "end:test": 10},
     "C07": {"swallowed:execute": 20, "swallowed:on_enable": 10, "swallowed:on_disable": 10, "swallowed:robotPeriodic": 10,
             "swallowed:teleopPeriodic-in-auto": 5, "swallowed:feedback": 10, "swallowed:mode.on_iteration": 5,
             "swallowed:init": 10, "swallowed:periodic": 10, "propagated": 100, "iterations-after-fault": 500,
-            "trace-equals-fault-free-twin": 200, "prefix-equals-fault-free-twin": 100},
+            "trace-equals-fault-free-twin": 200, "prefix-equals-fault-free-twin": 100, "fault-after-fms-change": 10},
     "C10": {"assign-enabled": 500, "reset-checked-at-arrival": 2000, "assign-disabled-dontcare": 50, "sentinel-assign": 50,
             "fault-in-reset-iteration": 20, "snapshot-checked": 20000,
             "marker-redeclared-in-subclass": 30, "marker-shadowed-by-plain-attribute": 30},
@@ -139,10 +139,17 @@ def gen_case(rng, pid, uid):
             cn, attr, _m = rng.choice(tracked)
             at(s, rng.randrange(0, max(1, total))).setdefault("assign", []).append([cn, attr, rng.choice([1, 2, "go", True, 0.25, None, 0, False])])
     # ---- faults
-    want_faults = pid == "C07" or (pid in ("C10", "C11") and rng.random() < 0.5)
+    want_faults = pid == "C07" or (pid in ("C10", "C11") and rng.random() < 0.5) or (pid == "C06" and rng.random() < 0.3)
     if want_faults:
         spec["fms"] = rng.random() < 0.6 if pid == "C07" else True
         pool = sites["faultable"]
+        if pid == "C06":
+            # lifecycle sites only: with the FMS attached the bracket must survive a raising on_enable / on_disable / init hook
+            pool = [x for x in pool if site_kind(x) in ("on_enable", "on_disable", "init", "mode.on_enable", "mode.on_disable")]
+        if pid == "C07" and rng.random() < 0.35:
+            # the field connects / disconnects while the robot is running (also while it stays in one mode)
+            spec["fms_changes"] = {str(rng.randrange(0, max(1, total))): (not spec["fms"]) if j == 0 else rng.random() < 0.5
+                                   for j in range(rng.choice([1, 1, 2]))}
         if pid == "C11" and sites["fb"] and rng.random() < 0.7:
             pool = sites["fb"]
         for _ in range(rng.choice([1, 1, 2, 3])):
@@ -361,8 +368,8 @@ def check_sequence(spec, run, V: Verdicts, acc):
     # ---- the run must have produced every expected iteration (unless a fault legitimately ended it)
     if len(obs_chunks) < len(exp_chunks):
         last_raise = [e for e in log if e[0] == "raise"]
-        if last_raise and not fms:
-            pass        # judged by check_faults
+        if last_raise and fault_timeline(spec, log)[1] is not None:
+            pass        # a fault fired while the FMS was not attached: judged by check_faults
         elif run.timeout:
             V.add("INCONCLUSIVE", "timeout", f"robot thread neither parked nor ended within the watchdog after {len(obs_chunks)} iterations")
         else:
@@ -393,8 +400,9 @@ def check_setup(spec, run, V, acc):
             a = e[6]
             acc.checks += 1
             V.ev("setup-checked")
-            if not a["all_components_exist"] or not all(a["injected_identity"]):
-                V.add("C06", "setup-before-wiring", f"{e[1]} ran with all_components_exist={a['all_components_exist']} injected_identity={a['injected_identity']}")
+            if not a["all_components_exist"] or not all(a["injected_identity"]) or not a.get("all_injected", True):
+                V.add("C06", "setup-before-wiring", f"{e[1]} ran with all_components_exist={a['all_components_exist']} "
+                                                    f"own injected_identity={a['injected_identity']} every-component-injected={a.get('all_injected')}")
 
 
 def check_mode_and_timing(spec, run, V, acc):
@@ -440,6 +448,20 @@ def check_mode_and_timing(spec, run, V, acc):
                 return
 
 
+def fault_timeline(spec, log):
+    """[(log index, site, fms attached at that moment)] for every raise event, and the index of the first one that
+    must propagate (FMS not attached), or None."""
+    fms = spec["fms"]
+    out = []
+    for i, e in enumerate(log):
+        if e[0] == "fms":
+            fms = e[1]
+        elif e[0] == "raise":
+            out.append((i, e[1], fms))
+    first_prop = next((k for k, x in enumerate(out) if not x[2]), None)
+    return out, first_prop
+
+
 def check_faults(spec, run, V, acc, fired, n_ok):
     log = run.log
     raises = [e for e in log if e[0] == "raise"]
@@ -458,38 +480,46 @@ def check_faults(spec, run, V, acc, fired, n_ok):
             if e[0] == "arrival":
                 n += 1
         return meta[min(n, len(meta) - 1)]["mode"]
-    if spec["fms"]:
+    tl, first_prop = fault_timeline(spec, log)
+    swallowed = tl if first_prop is None else tl[:first_prop]
+    if first_prop is None:
         acc.checks += 1
         if run.escaped is not None:
-            V.add("C07", "escaped-with-fms", f"FMS attached, fault at {raises[0][1]} (mode {mode_of(raises[0])}): {run.escaped!r} left startCompetition()")
+            V.add("C07", "escaped-with-fms", f"FMS attached, fault at {raises[-1][1]} (mode {mode_of(raises[-1])}): {run.escaped!r} left startCompetition()")
             return
-        for r in raises:
-            k = site_kind(r[1])
-            md = mode_of(r)
-            if k == "periodic" and r[1] == "R.teleopPeriodic" and md == "auto":
-                k = "teleopPeriodic-in-auto"
-            V.ev("swallowed:" + k)
-            V.ev(f"swallowed-site-mode:{k}:{md}")
+    for i, site, _f in swallowed:
+        r = log[i]
+        k = site_kind(site)
+        md = mode_of(r)
+        if k == "periodic" and site == "R.teleopPeriodic" and md == "auto":
+            k = "teleopPeriodic-in-auto"
+        V.ev("swallowed:" + k)
+        V.ev(f"swallowed-site-mode:{k}:{md}")
+        if k in ("on_enable", "on_disable", "init", "mode.on_enable", "mode.on_disable"):
+            V.ev("lifecycle-fault-swallowed")
+    if first_prop is None:
         # liveness after the last fault
-        idx_last = max(i for i, e in enumerate(log) if e[0] == "raise")
+        idx_last = tl[-1][0]
         after = sum(1 for e in log[idx_last:] if e[0] == "arrival")
         V.ev("iterations-after-fault", after)
-    else:
-        r = raises[0]
-        acc.checks += 3
-        V.ev("propagated")
-        V.ev(f"propagated-site-mode:{site_kind(r[1])}:{mode_of(r)}")
-        if run.escaped is None:
-            V.add("C07", "swallowed-without-fms", f"no FMS: fault at {r[1]} did not propagate out of startCompetition() (thread ended={run.ended})")
-            return
-        if run.escaped is not run.rec.faults[0]:
-            V.add("C07", "wrong-exception", f"no FMS: {run.escaped!r} escaped instead of the injected {run.rec.faults[0]!r}")
-            return
-        # nothing user-visible may run after the propagating callback
-        i = log.index(r)
-        later = [e[1] for e in log[i + 1:] if e[0] == "cb"]
-        if later or len(raises) > 1:
-            V.add("C07", "callbacks-after-propagation", f"no FMS: callbacks ran after the propagating fault at {r[1]}: {later[:6]}")
+        return
+    i, site, _f = tl[first_prop]
+    r = log[i]
+    acc.checks += 3
+    V.ev("propagated")
+    V.ev(f"propagated-site-mode:{site_kind(site)}:{mode_of(r)}")
+    if any(e[0] == "fms" for e in log[:i]):
+        V.ev("fault-after-fms-change")
+    if run.escaped is None:
+        V.add("C07", "swallowed-without-fms", f"no FMS: fault at {site} did not propagate out of startCompetition() (thread ended={run.ended})")
+        return
+    if run.escaped is not run.rec.faults[first_prop]:
+        V.add("C07", "wrong-exception", f"no FMS: {run.escaped!r} escaped instead of the injected {run.rec.faults[first_prop]!r}")
+        return
+    # nothing user-visible may run after the propagating callback
+    later = [e[1] for e in log[i + 1:] if e[0] == "cb"]
+    if later or len(tl) > first_prop + 1:
+        V.add("C07", "callbacks-after-propagation", f"no FMS: callbacks ran after the propagating fault at {site}: {later[:6]}")
 
 
 def strip_faults(spec):
@@ -513,7 +543,8 @@ def check_faults_differential(spec, run, twin, V, acc):
     if not raises or twin.escaped is not None or twin.timeout:
         return
     acc.checks += 2
-    if spec["fms"]:
+    tl, first_prop = fault_timeline(spec, run.log)
+    if first_prop is None:
         if a != b:
             i = next((k for k in range(min(len(a), len(b))) if a[k] != b[k]), min(len(a), len(b)))
             V.add("C07", "trace-differs-from-fault-free-run",
@@ -524,9 +555,9 @@ def check_faults_differential(spec, run, twin, V, acc):
         else:
             V.ev("trace-equals-fault-free-twin")
     else:
-        n = len([e for e in run.log[:run.log.index(raises[0])] if e[0] == "cb"])
+        n = len([e for e in run.log[:tl[first_prop][0]] if e[0] == "cb"])
         if a[:n] != b[:n]:
-            V.add("C07", "prefix-differs-from-fault-free-run", f"no FMS: callbacks before the propagating fault differ from the fault-free run")
+            V.add("C07", "prefix-differs-from-fault-free-run", f"callbacks before the propagating fault differ from the fault-free run")
         else:
             V.ev("prefix-equals-fault-free-twin")
 
